@@ -390,7 +390,11 @@ func runReq(e *ReqEdge, pkg *reg.Pkg, x *conc.Ctx, mode string, res *rep.Result)
 		if !proto.Equal(before, n) {
 			res.Violate("C11", reqSig("C11", "notification-mutated", e, pkg, x, mode), "UnmarshalNotifications modified the notification: before "+compactProto(before)+" after "+compactProto(n), rc)
 		}
-	case mode == "setreq" || mode == "notif" || strings.HasPrefix(mode, "setreq-extra"):
+	case mode == "setreq" || mode == "notif" || strings.HasPrefix(mode, "setreq-extra") || mode == "setreq-besteffort":
+		if mode == "setreq-besteffort" && len(e.Req) > 0 && e.Req[0].K == "adel" {
+			res.Skip(1)
+			return
+		}
 		req := &gpb.SetRequest{}
 		for i := range e.Req {
 			o := &e.Req[i]
@@ -434,6 +438,32 @@ func runReq(e *ReqEdge, pkg *reg.Pkg, x *conc.Ctx, mode string, res *rep.Result)
 				sopts = append(sopts, &ytypes.IgnoreExtraFields{})
 			}
 		}
+		if mode == "setreq-besteffort" {
+			// extension: one operation that cannot be applied (a node the schema does not have, or a
+			// value of the wrong type for an existing leaf) among the valid ones; with
+			// BestEffortUnmarshal every other operation takes effect and an error is returned
+			var pre []*gpb.PathElem
+			for _, n := range x.V.Prefix() {
+				pre = append(pre, &gpb.PathElem{Name: n})
+			}
+			bad := &gpb.Update{Path: &gpb.Path{Elem: append(pre, &gpb.PathElem{Name: "no-such-node"})}, Val: &gpb.TypedValue{Value: &gpb.TypedValue_StringVal{StringVal: "x"}}}
+			// (as a replace the wrongly typed value would first delete the container it addresses: a
+			// partial effect of the bad operation itself; it is therefore only used as an update)
+			if x.Seed%2 == 0 && x.Seed%3 != 2 {
+				if cp, err := x.GNMIPath([]string{"c"}, pkg); err == nil {
+					bad = &gpb.Update{Path: cp, Val: &gpb.TypedValue{Value: &gpb.TypedValue_BoolVal{BoolVal: true}}} // a scalar for a container
+				}
+			}
+			switch x.Seed % 3 {
+			case 0:
+				req.Update = append([]*gpb.Update{bad}, req.Update...)
+			case 1:
+				req.Update = append(req.Update, bad)
+			default:
+				req.Replace = append([]*gpb.Update{bad}, req.Replace...)
+			}
+			sopts = append(sopts, &ytypes.BestEffortUnmarshal{})
+		}
 		splitPrefix(req, int(x.Seed%4))
 		before := proto.Clone(req)
 		desc = compactProto(req)
@@ -476,6 +506,35 @@ func runReq(e *ReqEdge, pkg *reg.Pkg, x *conc.Ctx, mode string, res *rep.Result)
 	}
 	if pan != "" {
 		res.Violate("C20", reqSig("C20", "panic", e, pkg, x, mode), "panic: "+firstLine(pan)+" on "+desc, rc)
+		return
+	}
+	if mode == "setreq-besteffort" {
+		res.Count("besteffort_requests", 1)
+		for _, t := range []*abs.Tree{got, exp} {
+			for k, v := range t.LL {
+				if len(v) == 0 {
+					delete(t.LL, k)
+				}
+			}
+		}
+		switch {
+		case callErr == nil:
+			res.Count("besteffort_no_error", 1)
+			res.DriftNote("EXT besteffort: UnmarshalSetRequest(BestEffortUnmarshal) returns no error although one operation cannot be applied")
+		case len(abs.Diff(got, exp, false)) > 0 && !pkg.SimpleUnion && touchesUnionKeyedList(e, x):
+			res.Count("besteffort_wrapper_union_key_known_finding", 1)
+		case len(abs.Diff(got, exp, false)) > 0:
+			res.Count("besteffort_result_differs", 1)
+			res.DriftNote(fmt.Sprintf("EXT besteffort: the valid operations of a request with one bad operation (position %d) did not all take effect: %s", x.Seed%3, abstractDiff(abs.Diff(got, exp, false))))
+			if !(!pkg.SimpleUnion && touchesUnionKeyedList(e, x)) {
+				res.Sample(map[string]interface{}{"ext": "besteffort", "pkg": pkg.Name, "variant": x.V.Name, "request": desc, "diff": abs.Diff(got, exp, false), "err": firstLine(callErr.Error())})
+			}
+		default:
+			res.Count("besteffort_agree", 1)
+			if _, ok := callErr.(*ytypes.ComplianceErrors); !ok {
+				res.DriftNote(fmt.Sprintf("EXT besteffort: the error is a %T, not *ytypes.ComplianceErrors", callErr))
+			}
+		}
 		return
 	}
 	if mode == "unmarshal-extra" || mode == "setreq-extra" {
